@@ -84,6 +84,23 @@ def batch(job):
                       and out['t'] is t and out[s + '!'] == 'plain')
                 if not ok:
                     bad.append(('structure', f'{label} inside a nested structure gave {out!r}'))
+    # two substituted strings with the SAME text but different placeholder forms (and an ordinary string of that text)
+    # inside one structure: one deepcopy keeps every representation apart
+    by_out = {}
+    for c in cases:
+        if c['out'] != c['s']:
+            by_out.setdefault((c['g'], c['out']), []).append(c['s'])
+    for (g, out), forms in by_out.items():
+        gv = dict(GVS[g - 1])
+        rs = [search_and_replace_placeholders(f, gv) for f in forms[:3]]
+        data = {'l': list(rs) + [out], 'again': list(rs)}
+        cp = copy.deepcopy(data)
+        got = [repr(x) for x in cp['l']] + [repr(x) for x in cp['again']]
+        exp = [repr(f) for f in forms[:3]] + [repr(out)] + [repr(f) for f in forms[:3]]
+        if got != exp or [str(x) for x in cp['l']] != [out] * (len(rs) + 1):
+            bad.append(('copy:deepcopy-of-equal-texts', f'deepcopy of a structure holding the substituted forms {forms[:3]} '
+                                                        f'(all reading {out!r} under {gv}) and the plain string gives '
+                                                        f'representations {got}, expected {exp}'))
     return bad
 
 
@@ -181,6 +198,27 @@ def through_config(_):
         except Exception as e:  # noqa
             bad.append(('config:nested-context', f'contexts nested two levels with placeholders in their `uses` paths failed: '
                                                  f'{type(e).__name__}: {e}'))
+        # ONE Context object used for two configs with different global_vars (strings nested in lists / mappings of
+        # the global and of the namespace part): each config gets its own substitution, the Context is not changed
+        from taskchain.config import Context
+        cdata = {'top': ['{A}-t', {'k': '{B}-k'}], 'for_namespaces': {'o': {'nested': ['{A}-n', {'k': ['{B}-kk']}]}}}
+        cobj = Context.prepare_context(copy.deepcopy(cdata))
+        before = (copy.deepcopy(cobj.data), copy.deepcopy(cobj.for_namespaces))
+        for gvx in (gv, {**gv, 'A': 'second', 'B': 'zwei'}):
+            cx = Config(root / 'data', main, global_vars=gvx, context=cobj)
+            chx = cx.chain()
+            ox = [c for c in chx._configs.values() if c.namespace == 'o'][0]
+            for what, got, val in (('global context list item', cx['top'][0], f"{gvx['A']}-t"),
+                                   ('global context nested mapping', cx['top'][1]['k'], f"{gvx['B']}-k"),
+                                   ('namespace context list item', ox['nested'][0], f"{gvx['A']}-n"),
+                                   ('namespace context nested list', ox['nested'][1]['k'][0], f"{gvx['B']}-kk")):
+                if str(got) != val:
+                    bad.append((f'config:context-reuse:{what}', f'a Context object used for a second config with other '
+                                                                f'global_vars: {what} is {str(got)!r}, expected {val!r}'))
+            if (cobj.data, cobj.for_namespaces) != before or repr((cobj.data, cobj.for_namespaces)) != repr(before):
+                bad.append(('config:context-mutated', f"building a config changed the caller's Context object: "
+                                                      f'{(cobj.data, cobj.for_namespaces)!r}'))
+                break
         # the same config under other global_vars: same persistence key, other value
         cfg_b = Config(root / 'data', main, global_vars={**gv, 'A': 'other'})
         if cfg_b.chain()['p'].name_for_persistence != t.name_for_persistence:
